@@ -7,11 +7,6 @@ definitions, selections, selection sets, operations, fragments, documents).
 namespace NitroVerif.C16Own
 open NitroVerif.Gql NitroVerif.ValueParse NitroVerif.DocParse NitroVerif.TypeParse NitroVerif.StringParse
 
-/-- unfold a rendering and its flat form, rewrite the parts by their flat forms -/
-macro "flat_simp" "[" ls:Lean.Parser.Tactic.simpLemma,* "]" : tactic =>
-  `(tactic| simp only [$ls,*, rToks_cons, rToks_append, rToks_nil, List.append_nil, List.nil_append, List.length_nil,
-      Nat.add_zero, List.append_assoc, List.cons_append, List.length_append, Nat.add_assoc])
-
 /-! ### default values, variable definitions -/
 
 def cOptDefault (sep : Bool) : Option Value → List (List Char × Bool)
